@@ -55,11 +55,14 @@ def check(rep):
     model = load_model()
     x, y = ("Variable", "x"), ("Variable", "y")
     operands = [x, ("Constant", 0), ("Constant", 1), ("Add", [x, y]), ("Negation", x), ("Multiply", [x, ("Constant", 1)]),
-                ("Reciprocal", y), ("NthPower", x, 2), ("Power", x, y), ("Minus", x, y)]
+                ("Reciprocal", y), ("NthPower", x, 2), ("Power", x, y), ("Minus", x, y),
+                # constants with values that invite special cases
+                ("Constant", math.e), ("Constant", 2), ("Constant", -1), ("Constant", 0.5), ("Constant", 10),
+                ("Constant", -0.0)]
     cases = []
     for a in operands:
         cases.append(("neg", a, None, ("Negation", a)))
-        for b in operands[:7]:
+        for b in operands[:7] + operands[10:13]:
             cases.append(("+", a, b, ("Add", [a, b])))
             cases.append(("-", a, b, ("Minus", a, b)))
             cases.append(("*", a, b, ("Multiply", [a, b])))
